@@ -173,6 +173,24 @@ let dispatch op r =
       pr_result (fun o -> pr_list pr_tok o.po_toks; pr_list pr_str o.po_unknowns;
                           pr_list pr_diag o.po_diags)
         (m_run_parse nosp files lang multi simple mods define latex extr fuel)
+  | "tex2txt" ->
+      let nosp = rd_bool r in
+      let files = rd_list r (fun r -> let n = rd_str r in let c = rd_str r in (n, c)) in
+      let lang = rd_str r in let multi = rd_bool r in let simple = rd_bool r in
+      let mods = rd_list r (fun r -> let c = rd_bool r in let n = rd_str r in (c, n)) in
+      let define = rd_str r in let latex = rd_str r in
+      let extr = rd_list r rd_str in
+      let has_repl = rd_bool r in let repl = rd_list r rd_str in
+      let unkn = rd_bool r in let thresh = rd_nat r in let fuel = rd_nat r in
+      pr_result (fun o ->
+          (match o.to_result with
+           | TSingle (t, p) -> pi 0; pr_str t; pr_zlist p
+           | TMulti parts -> pi 1;
+               pr_list (fun (l, ps) -> pr_str l;
+                         pr_list (fun (t, p) -> pr_str t; pr_zlist p) ps) parts);
+          pr_list pr_str o.to_unknowns; pr_list pr_diag o.to_diags)
+        (m_run_tex2txt nosp files lang multi simple mods define latex extr
+           (if has_repl then Some repl else None) unkn thresh fuel)
   | _ -> raise Not_found
 
 let () =
